@@ -269,8 +269,8 @@ static void make_base(uint64_t seed, int b, Base & B, const std::string & path) 
 static int run_c08(uint64_t seed, long from, long to, int nbase, bool count_only) {
     ol::spec_selfcheck();
     std::string path = tmp_path("c08");
-    std::vector<Base *> bases; std::vector<long> start; long total = 0;
-    for (int b = 0; b < nbase; b++) { Base * B = new Base; make_base(seed, b, *B, path); bases.push_back(B); start.push_back(total); total += (long)B->file.size() + 1; }
+    std::vector<std::unique_ptr<Base>> bases; std::vector<long> start; long total = 0;
+    for (int b = 0; b < nbase; b++) { Base * B = new Base; bases.emplace_back(B); make_base(seed, b, *B, path); start.push_back(total); total += (long)B->file.size() + 1; }
     if (count_only) { printf("%ld\n", total); return 0; }
     long sessions = 0, threw = 0, delivered = 0, nonempty = 0, in_band = 0; std::set<long> distinct_counts; std::string sample;
     for (long idx = from; idx < to && idx < total; idx++) {
